@@ -47,54 +47,64 @@ def run(ctx):
 
     ctx.extra["available_permission_levels"] = sorted(perm)
     ctx.extra["available_mapping_levels"] = sorted(maps)
-    for lvl in range(-5, 101):
-        for kind in ("int", "str"):
-            arg = lvl if kind == "int" else str(lvl)
-            el = expected_level_perm(perm, lvl)
-            for ptype in ("permissions", "groups"):
+    shipped_default = default
+    other_defaults = [l for l in sorted(maps) if l != shipped_default and load(maps[l]) != {}][:1] + [l for l in sorted(maps, reverse=True) if l != shipped_default and load(maps[l]) != {}][:1]
+    for default in [shipped_default] + other_defaults:
+        # CONF["DEFAULT_API"] is a setting: the level the mappings fall back to is the one configured when the request is made
+        androconf.CONF["DEFAULT_API"] = default
+        ctx.count("passes_with_DEFAULT_API=%s" % default)
+        for lvl in range(-5, 101):
+            for kind in ("int", "str") + (("str-leading-zero", "str-spaces", "str-plus-sign") if lvl >= 0 else ()):
+                # whatever int() accepts as the spelling of the level denotes that level
+                arg = {"int": lvl, "str": str(lvl), "str-leading-zero": "0%d" % lvl, "str-spaces": " %d\n" % lvl, "str-plus-sign": "+%d" % lvl}[kind]
+                el = expected_level_perm(perm, lvl)
+                for ptype in ("permissions", "groups"):
+                    ctx.ev()
+                    ctx.count("load_permissions")
+                    try:
+                        got = asr.load_permissions(arg, ptype)
+                    except Exception as e:
+                        ctx.violation("load_permissions-raises", "load_permissions raises", {"level": arg, "type": ptype, "exc": exc_str(e)})
+                        continue
+                    if got != load(perm[el])[ptype]:
+                        ctx.violation("load_permissions-wrong-level", "load_permissions returned data of a different level than the fallback rule selects",
+                                      {"level": repr(arg), "type": ptype, "expected_level": el})
+                    if el != lvl:
+                        ctx.sig("lp", lvl, kind, ptype)
+                # module loader, aosp_permissions
                 ctx.ev()
-                ctx.count("load_permissions")
+                ctx.count("load_api_specific_resource_module")
                 try:
-                    got = asr.load_permissions(arg, ptype)
+                    got = androconf.load_api_specific_resource_module("aosp_permissions", arg)
+                    want = load(perm[el])["permissions"]
+                    if want == {}:
+                        want = load(perm[expected_level_perm(perm, default)])["permissions"]
+                    if got != want:
+                        mech = "module-int-zero-treated-as-missing" if arg == 0 and got == load(perm[expected_level_perm(perm, default)])["permissions"] else "module-permissions-wrong-level"
+                        ctx.violation(mech, "load_api_specific_resource_module('aosp_permissions') returned data of a different level than the rule selects",
+                                      {"level": repr(arg), "expected_level": el})
                 except Exception as e:
-                    ctx.violation("load_permissions-raises", "load_permissions raises", {"level": arg, "type": ptype, "exc": exc_str(e)})
+                    ctx.violation("module-raises", "load_api_specific_resource_module raises", {"level": repr(arg), "exc": exc_str(e)})
+                # mappings (canonical spellings only: the mapping loader looks the spelling up as it is, another spelling is "a level without a file")
+                if kind not in ("int", "str"):
                     continue
-                if got != load(perm[el])[ptype]:
-                    ctx.violation("load_permissions-wrong-level", "load_permissions returned data of a different level than the fallback rule selects",
-                                  {"level": repr(arg), "type": ptype, "expected_level": el})
-                if el != lvl:
-                    ctx.sig("lp", lvl, kind, ptype)
-            # module loader, aosp_permissions
-            ctx.ev()
-            ctx.count("load_api_specific_resource_module")
-            try:
-                got = androconf.load_api_specific_resource_module("aosp_permissions", arg)
-                want = load(perm[el])["permissions"]
-                if want == {}:
-                    want = load(perm[expected_level_perm(perm, default)])["permissions"]
-                if got != want:
-                    mech = "module-int-zero-treated-as-missing" if arg == 0 and got == load(perm[expected_level_perm(perm, default)])["permissions"] else "module-permissions-wrong-level"
-                    ctx.violation(mech, "load_api_specific_resource_module('aosp_permissions') returned data of a different level than the rule selects",
-                                  {"level": repr(arg), "expected_level": el})
-            except Exception as e:
-                ctx.violation("module-raises", "load_api_specific_resource_module raises", {"level": repr(arg), "exc": exc_str(e)})
-            # mappings
-            ctx.ev()
-            ctx.count("load_permission_mappings")
-            try:
-                got = asr.load_permission_mappings(arg)
-                want = load(maps[lvl]) if lvl in maps else {}
-                if got != want:
-                    ctx.violation("mappings-direct", "load_permission_mappings returned something else than that level's file (or {} when missing)", {"level": repr(arg)})
-                got = androconf.load_api_specific_resource_module("api_permission_mappings", arg)
-                em = lvl if (lvl in maps and load(maps[lvl]) != {}) else default
-                if got != load(maps[em]):
-                    mech = "module-int-zero-treated-as-missing" if arg == 0 else "module-mappings-wrong-level"
-                    ctx.violation(mech, "permission mappings did not fall back to the default level / did not load the requested level", {"level": repr(arg), "expected_level": em})
-                if em != lvl:
-                    ctx.sig("map", lvl, kind)
-            except Exception as e:
-                ctx.violation("mappings-raises", "mapping loader raises", {"level": repr(arg), "exc": exc_str(e)})
+                ctx.ev()
+                ctx.count("load_permission_mappings")
+                try:
+                    got = asr.load_permission_mappings(arg)
+                    want = load(maps[lvl]) if lvl in maps else {}
+                    if got != want:
+                        ctx.violation("mappings-direct", "load_permission_mappings returned something else than that level's file (or {} when missing)", {"level": repr(arg)})
+                    got = androconf.load_api_specific_resource_module("api_permission_mappings", arg)
+                    em = lvl if (lvl in maps and load(maps[lvl]) != {}) else default
+                    if got != load(maps[em]):
+                        mech = "module-int-zero-treated-as-missing" if arg == 0 else "module-mappings-wrong-level"
+                        ctx.violation(mech, "permission mappings did not fall back to the default level / did not load the requested level", {"level": repr(arg), "expected_level": em})
+                    if em != lvl:
+                        ctx.sig("map", lvl, kind)
+                except Exception as e:
+                    ctx.violation("mappings-raises", "mapping loader raises", {"level": repr(arg), "exc": exc_str(e)})
+    androconf.CONF["DEFAULT_API"] = shipped_default
     # invalid resource name must raise
     ctx.ev()
     try:
